@@ -154,6 +154,10 @@ def group_case(draw, **kw):
         zshear_cp=draw(_cp(-1.0, 1.0, 0.0)),
     )
     d["ncp_default"] = draw(st.integers(1, 6))
+    # how the values reach the mesh: through the Geometry group (input defaults taken from the dictionary), through the
+    # Geometry group with the documented `<name>_dv: False` switch on the scalar variables (no input default is set: the
+    # value the GeometryMesh sub-group took from the dictionary must act), or through GeometryMesh used on its own
+    d["entry"] = draw(st.sampled_from(["geometry", "geometry", "geometry_nodv", "mesh_alone"]))
     return d
 
 
@@ -542,26 +546,58 @@ def verdict_group(desc):
                 kw[k] = np.full(len(target[k]), CP_DEFAULT[k])
         else:
             kw[k] = target[k]
+    entry = desc.get("entry", "geometry")
+    out.label("entry=" + entry)
+    scalars = [k for k in act if k in ("taper", "sweep", "span", "dihedral")]
+    if entry == "geometry_nodv":
+        for k in scalars:
+            kw[k + "_dv"] = False
     surf = _surface("w", m, sym, p, **kw)
-    prob = _geometry_problem(surf)
-    if after:
-        out.label("values_set_after_setup")
-        for k in act:
-            prob.set_val("g." + k, target[k])
-    elif drawn:
-        out.label("values_from_dict")
-    if not _run(out, prob):
-        return out
-    mesh = prob.get_val("g.mesh").copy()
-    pre = prob.get_val("g.mesh.shear_z.mesh").copy()
-
-    # spline outputs, fed to the reference chain
     dist = {}
-    for k in act:
-        if k in DIST_OF:
-            dist[k] = prob.get_val("g." + DIST_OF[k]).ravel().copy()
-            check_spline(out, DIST_OF[k], target[k], dist[k], nodal=True, m=m)
-            out.label("ncp=%d" % len(target[k]))
+    if entry == "mesh_alone":
+        import openmdao.api as om
+        from openaerostruct.geometry.geometry_mesh import GeometryMesh
+
+        prob = om.Problem(reports=False)
+        prob.model.add_subsystem("g", GeometryMesh(surface=surf))
+        prob.setup()
+        # nodal distributions are the inputs of this group: any nodal array is admissible; use the control points
+        # interpolated linearly over the normalised span
+        xi = _xi(m, True)
+        for k in act:
+            if k in DIST_OF:
+                cp = np.asarray(target[k], float)
+                dist[k] = np.full(ny, cp[0]) if len(cp) == 1 else np.interp(xi, np.linspace(0.0, 1.0, len(cp)), cp)
+                prob.set_val("g." + DIST_OF[k], dist[k])
+        if after:
+            out.label("values_set_after_setup")
+            for k in scalars:
+                prob.set_val("g." + k, target[k])
+        elif drawn:
+            out.label("values_from_dict")
+        if not _run(out, prob):
+            return out
+        mesh = prob.get_val("g.mesh").copy()
+        pre = prob.get_val("g.shear_z.mesh").copy()
+    else:
+        prob = _geometry_problem(surf)
+        if after:
+            out.label("values_set_after_setup")
+            for k in act:
+                prob.set_val("g." + k, target[k])
+        elif drawn:
+            out.label("values_from_dict")
+        if not _run(out, prob):
+            return out
+        mesh = prob.get_val("g.mesh").copy()
+        pre = prob.get_val("g.mesh.shear_z.mesh").copy()
+
+        # spline outputs, fed to the reference chain
+        for k in act:
+            if k in DIST_OF:
+                dist[k] = prob.get_val("g." + DIST_OF[k]).ravel().copy()
+                check_spline(out, DIST_OF[k], target[k], dist[k], nodal=True, m=m)
+                out.label("ncp=%d" % len(target[k]))
     args = dict(
         taper_=target.get("taper", 1.0), chord=dist.get("chord_cp"), sweep_=target.get("sweep", 0.0),
         xshear=dist.get("xshear_cp"), span=target.get("span"), yshear=dist.get("yshear_cp"),
